@@ -42,3 +42,10 @@ SEEDS = [
 		nameb[i] = uint16(c)
 	}""")]},
 ]
+
+SEEDS += [
+ {"name": "c02-name-limit-counts-runes", "properties": ["C02"], "expect": "C02-g|",
+  "edits": [e("partition/gpt/partition.go", "	if len(nameb) > 36 {", "	if len(r) > 36 {")]},
+ {"name": "c02-protective-signature-at-sector-end", "properties": ["C02"], "expect": "C02-h|",
+  "edits": [e("partition/gpt/table.go", "	if !bytes.Equal(b[510:512], getMbrSignature()) {", "	if !bytes.Equal(b[size-2:], getMbrSignature()) {")]},
+]
